@@ -72,6 +72,7 @@ def cases(tier, seed):
         yield dict(kind='list', S=S, tier=tier)
     yield dict(kind='scalar', tier=tier)
     yield dict(kind='subsample', tier=tier)
+    yield dict(kind='narrow', tier=tier)
     for v in range(1, len(PNE_SPELLINGS)):
         yield dict(kind='spelling', variant=v, tier=tier)
     yield dict(kind='none', tier=tier)
@@ -174,9 +175,15 @@ def run_case(c):
                             orders = list(itertools.permutations(range(k))) if k <= 3 else [tuple(range(k)), tuple(reversed(range(k)))]
                             for order in orders:
                                 cur = d
-                                for i in order:
-                                    cur = to_rfi(cur, sp[i], amplification_type=at[i] if at else None,
-                                                 amplifier_gain=g[i] if g else None, resolution=r[i] if r else None)
+                                try:
+                                    for i in order:
+                                        cur = to_rfi(cur, sp[i], amplification_type=at[i] if at else None,
+                                                     amplifier_gain=g[i] if g else None, resolution=r[i] if r else None)
+                                except Exception as e:
+                                    res.violation('list:sequential-raises:%s' % type(e).__name__, '%s: converting one channel at a time in order %r raised %s: %s' % (
+                                        what, [sp[i] for i in order], type(e).__name__, e), one)
+                                    okseq = False
+                                    break
                                 if k and not same(cur, t):
                                     res.violation('list:sequential', '%s differs from converting one channel at a time in order %r: %s' % (
                                         what, [sp[i] for i in order], diff(fp(cur), fp(t))), one)
@@ -185,6 +192,51 @@ def run_case(c):
                             if okseq:
                                 res.ok('list:k=%d' % k, k > 0)
             res.sample({'channels': spellings(S, tier)[-1], 'override menus': [repr(ATM), repr(GM), repr(RM)]})
+        elif c['kind'] == 'narrow':
+            # events held in 8- and 16-bit unsigned types, every value of the type's upper half included; settings given
+            # as Python ints, floats, or taken from the file
+            lay8 = dict(datatype='I', bits=[8, 8], ranges=[256, 256], pne=['4,1', '0,0'], events=[[i, 255 - i] for i in range(256)], byteord='1,2,3,4')
+            p8 = os.path.join(scratch(), 'c03_8.fcs')
+            buf, _ = fcsgen.build(lay8)
+            with open(p8, 'wb') as f:
+                f.write(buf)
+            d8 = FlowCal.io.FCSData(p8)
+            vals16 = sorted(set([0, 1, 255, 256, 16383, 16384, 21845, 21846, 32767, 32768, 65535] + list(range(0, 65536, 257))))
+            lay16 = dict(datatype='I', bits=[16, 16], ranges=[65536, 65536], pne=['4,1', '0,0'], events=[[v, 65535 - v] for v in vals16], byteord='4,3,2,1')
+            p16 = os.path.join(scratch(), 'c03_16.fcs')
+            buf, _ = fcsgen.build(lay16)
+            with open(p16, 'wb') as f:
+                f.write(buf)
+            d16 = FlowCal.io.FCSData(p16)
+            conts = [('8-bit sample', d8, 256), ('16-bit sample', d16, 65536), ('uint8 array', np.array(d8.view(np.ndarray)), 256),
+                     ('uint16 array', np.array(d16.view(np.ndarray)), 65536)]
+            for label, data, rr in conts:
+                nb = np.array(np.asarray(data))
+                for at in ([(4, 1)], [(4.0, 1.0)], [(3, 2)], [(8, 1)], [(2.5, 1)], None):
+                    for gsp in (None, [2], [2.0]):
+                        if at is None and not hasattr(data, 'channels'):
+                            continue
+                        what = 'to_rfi(%s, [0], amplification_type=%r, amplifier_gain=%r, resolution=%r)' % (label, at, gsp, [rr])
+                        a_eff = at[0] if at else (4.0, 1.0)
+                        f = lambda x, a=a_eff: a[1] * 10 ** (a[0] * x / float(rr))
+                        try:
+                            t = to_rfi(data, [0], amplification_type=at, amplifier_gain=gsp, resolution=[rr])
+                        except Exception as e:
+                            res.violation('narrow:raises:%s' % type(e).__name__, '%s raised %s: %s' % (what, type(e).__name__, e), dict(c))
+                            continue
+                        if expect_ok(res, 'narrow', what, data, nb, t, {0: f}, dict(c)):
+                            res.ok('narrow', True)
+                # linear channel with integer gain on narrow types
+                for gsp in ([2], [3], [0.5]):
+                    what = 'to_rfi(%s, [1], amplification_type=[(0, 0)], amplifier_gain=%r)' % (label, gsp)
+                    try:
+                        t = to_rfi(data, [1], amplification_type=[(0, 0)], amplifier_gain=gsp)
+                    except Exception as e:
+                        res.violation('narrow:raises:%s' % type(e).__name__, '%s raised %s: %s' % (what, type(e).__name__, e), dict(c))
+                        continue
+                    if expect_ok(res, 'narrow', what, data, nb, t, {1: (lambda x, g=gsp[0]: x / g)}, dict(c)):
+                        res.ok('narrow', True)
+            res.sample({'containers': [x[0] for x in conts], 'amplification_type forms': 'int tuples, float tuples, from file'})
         elif c['kind'] == 'subsample':
             # samples obtained by indexing: the per-channel settings must follow the columns
             subs = [('d[:, 1:]', d[:, 1:], [1, 2, 3]), ('d[:, ::-1]', d[:, ::-1], [3, 2, 1, 0]), ("d[:, ['CH4', 'CH2']]", d[:, ['CH4', 'CH2']], [3, 1]),
